@@ -54,6 +54,30 @@ def _switch_facts(body, s, reaching, depth, _cache):
         facts.add(("enum", src[1]["enum"], frozenset(names), subj))
         # a stored decision (`let kind = classify(..); match kind { .. }` with a private enum): the value is one of `names`, so it was
         # built at one of the constructions of those variants - what holds at all of them holds here
+        # `cond.then_some(v)` / `cond.then(|| v)` is Some exactly when cond holds
+        if names == {"Some"} and subj is not None:
+            l0 = subj[0]
+            for _ in range(6):
+                df0 = flow.single_def(body, l0)
+                if df0 is None:
+                    break
+                if df0["kind"] == "assign" and df0["rv"]["k"] == "use" and flow.op_place(df0["rv"]["ops"][0]) is not None and not flow.op_place(df0["rv"]["ops"][0])["proj"]:
+                    l0 = flow.op_place(df0["rv"]["ops"][0])["l"]
+                    continue
+                if df0["kind"] == "call" and callee_def(df0["term"]) in ("core::bool::<impl bool>::then_some", "core::bool::<impl bool>::then") and df0["term"]["args"]:
+                    cp = flow.op_place(df0["term"]["args"][0])
+                    cd = flow.single_def(body, cp["l"]) if cp is not None and not cp["proj"] else None
+                    pol = True
+                    for _ in range(4):
+                        if cd is not None and cd["kind"] == "call" and callee_def(cd["term"]) == "core::ops::bit::Not::not" and cd["term"]["args"]:
+                            q = flow.op_place(cd["term"]["args"][0])
+                            cd = flow.single_def(body, q["l"]) if q is not None and not q["proj"] else None
+                            pol = not pol
+                            continue
+                        break
+                    if cd is not None and cd["kind"] == "call":
+                        facts.add(("call", callee_def(cd["term"]), pol, cd["bi"]))
+                break
         wrap = _wrapper_depth(subj[1]) if subj is not None else None
         if depth < 3 and subj is not None and wrap is not None and _is_plain_enum(src[1]["enum"]):
             contrib = _enum_def_sites(body, subj[0], names, wrap, src[1]["enum"])
